@@ -49,3 +49,52 @@ def key_preamble(pid, c):
             if s.startswith('{"') and s.endswith("}") and "\n" in s and not s.startswith("\u029e"):
                 return "preamble.rawstring.newline"
     return None
+
+
+def key_call(pid, c):
+    """C20, lib/call. Two root causes on the unchanged tree:
+    * `_args_ctx` compares with min-1 / max-1 whatever the origin of the bounds, so for a variadic function
+      with a context parameter the *declared* bounds (and the default maximum 1000) are off by one;
+    * `CallOverrideFN` with a named function whose package path has no dot: `packageName[:-1]` at registration.
+    payload: <loc> <kind> <shape> <entry> <decl> <beh> | ( L args ) | value [\\t extra]"""
+    head = c.payload.split("\t")[0].split(" | ")
+    h = head[0].split(" ")
+    if len(h) != 6 or len(head) != 3:
+        return None
+    loc, kind, shape, entry, decl, beh = h
+    go = c.go.split("\t!")[0]
+    if "\t!" in c.go:
+        return None
+    if go.startswith("REGPANIC slice"):
+        if entry.startswith("ov:") and kind == "named" and loc == "dotless":
+            return "call.override.dotless-package-regpanic"
+        return None
+    sp = (shape.split(":")[0]).split("_")
+    if len(sp) != 4:
+        return None
+    ctx, variadic = sp[0] == "c", sp[2] != "0"
+    if ctx and variadic and go != (c.spec or ""):
+        # entered on one side only, or rejected for the count on one side and for a type on the other, at
+        # the two argument counts where the code's bounds and the contract's differ
+        # number of lisp arguments: top-level items of the list
+        depth, n = 0, 0
+        for tok in head[1].split()[2:-1]:
+            if tok == ")":
+                depth -= 1
+                continue
+            if depth == 0:
+                n += 1
+            if tok == "(":
+                depth += 1
+        ds = decl.split(",") if decl != "-" else []
+        if len(ds) in (1, 2):
+            try:
+                lo = int(ds[0])
+                hi = int(ds[1]) if len(ds) == 2 else 1000
+            except ValueError:
+                return None
+            if n in (lo - 1, hi):
+                return "call.ctx.declared-bounds-off-by-one"
+        elif n == 1000:
+            return "call.ctx.unlimited-bound-off-by-one"
+    return None
